@@ -393,12 +393,16 @@ func (e *encoder) tagActive(tags []string) bool {
 	if len(tags) == 0 || e.tag == "" {
 		return true
 	}
+	props := 0
 	for _, t := range tags {
 		if t == e.tag {
 			return true
 		}
+		if t != "local" && t != "assumed" {
+			props++
+		}
 	}
-	return false
+	return props == 0
 }
 
 // instr encodes one instruction; returns false if control does not continue
